@@ -173,3 +173,10 @@ func verif_rollback_keeps_store_tx(sqlTx *SQLTx, name string) {
 //@ func (*Engine).invalidateCatalogCache
 //@   inline
 //@   order version_bumped: e.cachedCatalogVersion.Add before return
+
+// ---------------------------------------------------------------------------------------------------------
+// 8. BEGIN TRANSACTION with pending implicit changes (typestate order rule): the pending transaction is committed
+//    BEFORE the new explicit transaction is opened (Engine.NewTx takes the snapshots the block will read from: opening
+//    it first makes the block miss the session's own preceding statements).
+//@ func (*BeginTransactionStmt).execAt
+//@   order pending_committed_before_new_tx: tx.Commit before tx.engine.NewTx
